@@ -1,6 +1,7 @@
 package main
 
 import (
+	"context"
 	"encoding/json"
 	"flag"
 	"fmt"
@@ -326,27 +327,39 @@ func (g *Gen) proveLemma(l *LemmaDecl, dir string, timeout time.Duration) *Lemma
 			os.WriteFile(file, []byte(q.text), 0o644)
 			ok := false
 			var who string
-			a, _, _ := runSolver(solvers[0], file, 5*time.Second)
-			if a == "unsat" {
-				ok, who = true, solvers[0].Name
+			h := queryHash(q.text)
+			t1 := time.Now()
+			if ce, hit := proofCache.get(h); hit {
+				ok, who = true, ce.solver+" (cached)"
 			} else {
-				// portfolio
-				type res struct {
-					a string
-					s Solver
-				}
-				ch := make(chan res, len(solvers))
-				for _, s := range solvers {
-					go func(s Solver) {
-						a, _, _ := runSolver(s, file, timeout)
-						ch <- res{a, s}
-					}(s)
-				}
-				for range solvers {
-					x := <-ch
-					if x.a == "unsat" && !ok {
-						ok, who = true, x.s.Name
+				a, _, _ := runSolver(solvers[0], file, 5*time.Second)
+				if a == "unsat" {
+					ok, who = true, solvers[0].Name
+				} else {
+					// portfolio, cancelled as soon as one solver answers unsat
+					type res struct {
+						a string
+						s Solver
 					}
+					ctx, cancel := context.WithCancel(context.Background())
+					ch := make(chan res, len(solvers))
+					for _, s := range solvers {
+						go func(s Solver) {
+							a, _, _ := runSolverCtx(ctx, s, file, timeout)
+							ch <- res{a, s}
+						}(s)
+					}
+					for range solvers {
+						x := <-ch
+						if x.a == "unsat" && !ok {
+							ok, who = true, x.s.Name
+							cancel()
+						}
+					}
+					cancel()
+				}
+				if ok {
+					proofCache.put(h, who, time.Since(t1).Seconds(), "lemma."+l.Name+"/"+sanitize(q.name))
 				}
 			}
 			mu.Lock()
@@ -372,3 +385,74 @@ func (g *Gen) proveLemma(l *LemmaDecl, dir string, timeout time.Duration) *Lemma
 }
 
 var _ ast.Expr
+
+
+// lemmaClosure returns the lemmas in `used` plus every lemma their proofs use (transitively), in library order.
+func (g *Gen) lemmaClosure(used map[string]bool) []string {
+	need := map[string]bool{}
+	var visit func(n string)
+	visit = func(n string) {
+		if need[n] {
+			return
+		}
+		l := g.CS.Lemmas[n]
+		if l == nil {
+			return
+		}
+		need[n] = true
+		_, using := splitUsing(l.Proof)
+		for _, u := range using {
+			if i := strings.Index(u, "("); i > 0 {
+				visit(strings.TrimSpace(u[:i]))
+			}
+		}
+	}
+	for n := range used {
+		visit(n)
+	}
+	var out []string
+	for _, n := range g.CS.LemmaOrder {
+		if need[n] {
+			out = append(out, n)
+		}
+	}
+	return out
+}
+
+// proveLemmasAsFunc proves the given lemmas and reports them as the obligations of a pseudo-function "lemma library":
+// every `use` of a lemma in a verified function is backed, in the same run, by the lemma's own proof (regenerated from
+// the current contract text; quick tier: memoised by query hash like every other obligation).
+func (g *Gen) proveLemmasAsFunc(names []string, dir string, timeout time.Duration) *FuncResult {
+	fr := &FuncResult{Key: "lemma library", Pos: "contracts"}
+	t0 := time.Now()
+	results := make([]*LemmaResult, len(names))
+	var wg sync.WaitGroup
+	for i, n := range names {
+		wg.Add(1)
+		go func(i int, n string) {
+			defer wg.Done()
+			results[i] = g.proveLemma(g.CS.Lemmas[n], dir, timeout)
+		}(i, n)
+	}
+	wg.Wait()
+	for i, r := range results {
+		o := &Obligation{Name: "lemma library/lemma#" + names[i], Kind: "lemma", Func: "lemma library", Pos: "contracts", Detail: "lemma " + names[i] + " (" + r.Method + "): " + r.Text, Seconds: r.Seconds}
+		switch r.Status {
+		case "proved":
+			o.Status = "discharged"
+			o.Backend = strings.Join(r.Backend, ",")
+			o.Output = fmt.Sprintf("unsat (%d/%d queries)", r.Proved, r.Queries)
+		case "definitional":
+			// the defining equation of an uninterpreted spec function: nothing to prove (listed as an assumption-free definition)
+			o.Status = "discharged"
+			o.Backend = "definition"
+			o.Output = "defining equation of an uninterpreted spec function"
+		default:
+			o.Status = "failed"
+			o.Output = "unproved: " + strings.Join(r.Failed, "; ")
+		}
+		fr.Obligations = append(fr.Obligations, o)
+	}
+	fr.Seconds = time.Since(t0).Seconds()
+	return fr
+}
